@@ -24,7 +24,7 @@ with the first `k` writes complete and a prefix of the next one (`crashImage`).
        of page 0), tornHeader_newLength;
        open_swap, tornHeader_late_opens / _accepted (such an image is opened like the complete file);
        torn_header_rejected_statement (+ _false, with a kernel-checked witness)
-  9  a whole session ending with finalize: finalize_crash, finalize_succeeds, ex_finalize
+  9  a whole session ending with finalize: finalize_crash, finalize_succeeds, ex_finalize, ex_finalize_closed
   10 open_unfinalized_iff: the hypothesis `RejectsEmpty` cannot be weakened
 
 Findings
@@ -1316,6 +1316,8 @@ theorem finalize_ops (ft : FloatText) (e : EW) (tr : String → Option String) (
   | some xml =>
   refine ⟨xml0, xml, rfl, hx, ?_⟩
   simp only [hx0, hx] at h
+  split at h
+  · cases h
   obtain ⟨p1, e1, h⟩ := Outcome.bind_eq_ok h
   obtain ⟨p2, e2, h⟩ := Outcome.bind_eq_ok h
   split at h
@@ -2373,15 +2375,18 @@ theorem finalize_crash {e : EW} {c : Cur} {l : List WOp} (h : Reach e c l)
     exact hnoop j cut
 
 open Spec in
-/-- on a reachable state `finalize` fails only for an empty GUID or a failing transformer: the
+/-- on a reachable state `finalize` fails only for an empty GUID, a failing transformer or XML above
+    10 MiB (which the reader would refuse): the
     hypothesis `EW.finalize … = .ok e'` of `finalize_crash` is satisfiable for every session -/
 theorem finalize_succeeds {e : EW} {c : Cur} {l : List WOp} (h : Reach e c l)
     (ft : FloatText) (tr : String → Option String) (x0 x : String)
-    (h0 : serializeRoot ft e.root e.pcs e.imgs e.exts = some x0) (h1 : tr x0 = some x) :
+    (h0 : serializeRoot ft e.root e.pcs e.imgs e.exts = some x0) (h1 : tr x0 = some x)
+    (hsmall : (utf8 x).length ≤ 1024 * 1024 * 10) :
     ∃ e', EW.finalize ft e tr = .ok e' := by
   have hpw := (reach_safe h).inv
+  have hsmall' : ¬ ((utf8 x).length > 1024 * 1024 * 10) := by omega
   unfold EW.finalize
-  simp only [h0, h1]
+  simp only [h0, h1, hsmall', if_false]
   obtain ⟨p1, e1, i1, a1⟩ := pw_writeAll e.pw (utf8 x) hpw
   obtain ⟨p2, e2, i2, a2⟩ := pw_align p1 i1
   obtain ⟨i3, a3, _, _⟩ := pw_size p2 i2
@@ -2406,8 +2411,12 @@ theorem finalize_succeeds {e : EW} {c : Cur} {l : List WOp} (h : Reach e c l)
   simp only [e1, e2, Outcome.bind_ok, e4, e5, hp2, e6, Bool.not_true, Bool.false_eq_true, if_false,
     Outcome.pure_eq]
 
-/-- non-vacuity of `finalize_crash`: the example session can be finalized (identity transformer) -/
-theorem ex_finalize (ft : FloatText) :
+/-- non-vacuity of `finalize_crash`: the example session can be finalized (identity transformer) — provided
+    its XML is at most 10 MiB, which is kept as a hypothesis: the text goes through `cdataEscape` =
+    `String.replace`, which the kernel does not evaluate (see `ex_finalize_closed` for an instance without
+    any hypothesis) -/
+theorem ex_finalize (ft : FloatText)
+    (hsmall : ∀ x0, serializeRoot ft exE0.root [] [] [] = some x0 → (utf8 x0).length ≤ 1024 * 1024 * 10) :
     ∃ e b e', exE0.addBlob exData = .ok (e, b) ∧
       Reach e .top ([WOp.write hdr0] ++ blobOps w1 exData) ∧ EW.finalize ft e some = .ok e' := by
   obtain ⟨e, b, _, hadd, hr, _⟩ := ex_session
@@ -2423,7 +2432,30 @@ theorem ex_finalize (ft : FloatText) :
     rw [this]
     exact ⟨_, rfl⟩
   obtain ⟨x0, hx0⟩ := hs
-  obtain ⟨e', he'⟩ := finalize_succeeds hr ft some x0 x0 hx0 rfl
+  have hx0' := hx0
+  rw [hroot.1, hroot.2.1, hroot.2.2.1, hroot.2.2.2] at hx0'
+  obtain ⟨e', he'⟩ := finalize_succeeds hr ft some x0 x0 hx0 rfl (hsmall x0 hx0')
+  exact ⟨e, b, e', hadd, hr, he'⟩
+
+/-- non-vacuity of `finalize_crash` without any hypothesis: the example session closed by
+    `finalize_customized_xml` with a transformer that replaces the XML by the 4 bytes `<x/>` -/
+theorem ex_finalize_closed (ft : FloatText) :
+    ∃ e b e', exE0.addBlob exData = .ok (e, b) ∧
+      Reach e .top ([WOp.write hdr0] ++ blobOps w1 exData) ∧
+      EW.finalize ft e (fun _ => some "<x/>") = .ok e' := by
+  obtain ⟨e, b, _, hadd, hr, _⟩ := ex_session
+  have hroot : e.root = exE0.root := by
+    unfold EW.addBlob at hadd
+    obtain ⟨⟨pw, b'⟩, _, hadd⟩ := Outcome.bind_eq_ok hadd
+    cases hadd
+    rfl
+  have hs : ∃ x0, serializeRoot ft e.root e.pcs e.imgs e.exts = some x0 := by
+    unfold serializeRoot
+    have : e.root.guid.isEmpty = false := by rw [hroot]; decide
+    rw [this]
+    exact ⟨_, rfl⟩
+  obtain ⟨x0, hx0⟩ := hs
+  obtain ⟨e', he'⟩ := finalize_succeeds hr ft (fun _ => some "<x/>") x0 "<x/>" hx0 rfl (by decide +kernel)
   exact ⟨e, b, e', hadd, hr, he'⟩
 
 /-! # 10. The hypothesis on the XML front end cannot be weakened -/
